@@ -116,6 +116,8 @@ func vpWSUnderlying(c *websocket.Conn) net.Conn { return nil }
 var vpCache map[string]interface{}
 var vpCacheMayExpire bool
 var vpCacheGets int
+var vpExpiredAny bool
+var vpCacheSetLog []interface{}
 
 func vpCacheGet(c interface{}, k string) (interface{}, bool) {
 	vpMu.Lock()
@@ -126,6 +128,7 @@ func vpCacheGet(c interface{}, k string) (interface{}, bool) {
 		return nil, false
 	}
 	if vpCacheMayExpire && vpBool("cache-expired-"+itoa(vpCacheGets)) {
+		vpExpiredAny = true
 		return nil, false
 	}
 	return v, true
@@ -137,6 +140,7 @@ func vpCacheSet(c interface{}, k string, v interface{}, d time.Duration) {
 		vpCache = map[string]interface{}{}
 	}
 	vpCache[k] = v
+	vpCacheSetLog = append(vpCacheSetLog, v)
 }
 func vpCacheCount(c interface{}) int {
 	vpMu.Lock()
@@ -188,6 +192,7 @@ func vpResetHandlers() {
 	vpNextTransports, vpMadeTransports, vpHijackFails = nil, nil, false
 	vpUpgradeFails, vpWSConnCloses = false, 0
 	vpCache, vpCacheMayExpire, vpCacheGets = map[string]interface{}{}, false, 0
+	vpExpiredAny, vpCacheSetLog = false, nil
 	vpWSGauge, vpLegacyGauge, vpCacheGauge = &vpGauge{}, &vpGauge{}, &vpGauge{}
 	websocketConnections, legacyConnections, connectionCache = vpWSGauge, vpLegacyGauge, vpCacheGauge
 	Connections = nil
